@@ -242,7 +242,7 @@ pub fn declare_any_scan_state() {
 
 /// a normal return of the real owner_of is the specified owner
 #[kani::proof]
-#[kani::unwind(25)]
+#[kani::unwind(13)]
 #[kani::stub(stellar_tokens::non_fungible::consecutive::storage::find_bit_in_item, crate::nft_consec::item_scan_ref)]
 pub fn owner_of_sound() {
     setup_world();
@@ -263,7 +263,7 @@ pub fn owner_of_sound() {
 }
 /// wherever the specification names an owner the real owner_of returns (no trap, no panic)
 #[kani::proof]
-#[kani::unwind(25)]
+#[kani::unwind(13)]
 #[kani::stub(stellar_tokens::non_fungible::consecutive::storage::find_bit_in_item, crate::nft_consec::item_scan_ref)]
 pub fn owner_of_complete() {
     setup_world();
@@ -342,27 +342,29 @@ impl Ghost {
     }
 }
 
-/// batch_mint from the empty state, with the documented results
-pub fn mint_two(e: &Env, two: bool) -> (u32, u32) {
+/// batch_mint(A, n0) [-> batch_mint(B, n1)] from the empty state, with the documented results
+pub fn arb_batches(two: bool) -> (u32, u32) {
     let n0: u32 = kani::any();
     kani::assume(n0 >= 1 && n0 <= MAXB);
+    let n1: u32 = kani::any();
+    kani::assume(n1 >= 1 && n1 <= MAXB);
+    (n0, if two { n1 } else { 0 })
+}
+pub fn mint_batches(e: &Env, n0: u32, n1: u32) {
     let last0 = Consecutive::batch_mint(e, &Address::from_id(0), n0);
     prop!(last0 == n0 - 1, "C10.consecutive.batch_mint.first_batch_ids_start_at_zero");
     prop!(sequential::next_token_id(e) == n0, "C10.consecutive.batch_mint.counter_advanced_by_amount");
     let ev = ConsecutiveMint { to: Address::from_id(0), from_token_id: 0, to_token_id: n0 - 1 };
     prop!(model::n_events() == 1 && model::event_is(0, ConsecutiveMint::EVENT_ID, &ev.event_words()), "C10.consecutive.batch_mint.one_exact_event");
-    if !two {
-        return (n0, 0);
+    if n1 == 0 {
+        return;
     }
     next_invocation();
-    let n1: u32 = kani::any();
-    kani::assume(n1 >= 1 && n1 <= MAXB);
     let last1 = Consecutive::batch_mint(e, &Address::from_id(1), n1);
     prop!(last1 == n0 + n1 - 1, "C10.consecutive.batch_mint.second_batch_ids_follow_the_first");
     prop!(sequential::next_token_id(e) == n0 + n1, "C10.consecutive.batch_mint.counter_advanced_by_amount");
     let ev = ConsecutiveMint { to: Address::from_id(1), from_token_id: n0, to_token_id: n0 + n1 - 1 };
     prop!(model::n_events() == 1 && model::event_is(0, ConsecutiveMint::EVENT_ID, &ev.event_words()), "C10.consecutive.batch_mint.one_exact_event");
-    (n0, n1)
 }
 
 /// one operation through the real entry point; post-conditions against the ghost before it
@@ -385,17 +387,58 @@ pub fn run_op(e: &Env, g: &Ghost, k: usize) {
     prop!(sequential::next_token_id(e) == g.n0 + g.n1, "C10.consecutive.step.id_counter_unchanged_by_transfer_or_burn");
 }
 
-/// query of a symbolic id and of a symbolic principal's balance against the ghost
-pub fn query_sound(e: &Env, g: &Ghost, k: usize) {
+/// the stored state answers like the ghost: owner of a SYMBOLIC id (both directions: by link B the real owner_of
+/// returns x exactly where the specification says Some(x) and traps elsewhere) and balance of a symbolic principal
+pub fn query(e: &Env, g: &Ghost, k: usize, has_burn: bool, has_transfer: bool) {
     next_invocation();
     let a = addr_below(NP);
     prop!(Base::balance(e, &a) == g.count(a.id, k), "C10.consecutive.history.balance_equals_owned_count");
     let j: u32 = kani::any();
     let want = g.owner(j, k);
-    witness!(want.is_some(), "query.existing_id");
-    let o = Consecutive::owner_of(e, j);
-    prop!(want.is_some(), "C10.consecutive.history.burned_or_unminted_id_has_no_owner");
-    prop!(want.is_none() || o.id == want.unwrap(), "C10.consecutive.history.owner_of_equals_ghost_owner");
+    let got = owner_of_spec(e, j);
+    if want.is_some() {
+        prop!(got.is_some() && got.unwrap().id == want.unwrap(), "C10.consecutive.history.existing_id_has_its_ghost_owner");
+    } else {
+        prop!(got.is_none(), "C10.consecutive.history.burned_or_unminted_id_has_no_owner");
+    }
+    witness!(!has_burn || (want.is_some() && j + 1 < g.n0 + g.n1 && g.owner(j + 1, k).is_none()), "query.existing_id_before_a_burned_id");
+    witness!(!has_transfer || want == Some(2), "query.id_owned_by_the_third_party");
+    witness!(!has_burn || (want.is_none() && j < g.n0 + g.n1), "query.burned_id");
+    witness!(want.is_some() && j / IDS != (g.n0 + g.n1 - 1) / IDS, "query.marker_in_a_later_bucket");
+}
+
+/// The keys a history can write, pre-declared ABSENT (identical to the empty contract state: an absent entry and
+/// no entry behave alike under get / has / set / remove / extend_ttl). Declaring them fixes the KIND of key each
+/// slot holds (concrete variant word, symbolic id), so a lookup only has to be compared with the slots of its own
+/// kind. Two declared keys may coincide (e.g. an operation on the last id of a batch): every storage primitive of
+/// the model uses the FIRST matching slot, so a later duplicate is a dead slot. `end_checks(n)` then also proves the
+/// frame: the history wrote no key outside this list.
+pub const S_BAL: usize = 1;
+pub const S_BKT: usize = 4;
+pub const S_OWN: usize = 7;
+pub fn declare_universe(g: &Ghost, k: usize, first: usize) -> usize {
+    let zero = [0u64; model::VW];
+    model::declare(first, 2, &SeqKeyMirror::TokenIdCounter, false, zero, 0);
+    let mut a = 0;
+    while a < 3 {
+        model::declare(first + S_BAL + a, 0, &NFTStorageKey::Balance(Address::from_id(a as u32)), false, zero, 0);
+        model::declare(first + S_BKT + a, 0, &ConsKey::OwnershipBucket(a as u32), false, zero, 0);
+        a += 1;
+    }
+    model::declare(first + S_OWN, 0, &ConsKey::Owner(g.n0.wrapping_sub(1)), false, zero, 0);
+    model::declare(first + S_OWN + 1, 0, &ConsKey::Owner((g.n0 + g.n1).wrapping_sub(1)), false, zero, 0);
+    let mut n = first + S_OWN + 2;
+    let mut i = 0;
+    while i < 3 {
+        if i < k {
+            model::declare(n, 0, &ConsKey::Owner(g.ops[i].id.wrapping_sub(1)), false, zero, 0);
+            model::declare(n + 1, 0, &ConsKey::Owner(g.ops[i].id), false, zero, 0);
+            model::declare(n + 2, 0, &ConsKey::BurnedToken(g.ops[i].id), false, zero, 0);
+            n += 3;
+        }
+        i += 1;
+    }
+    n
 }
 
 macro_rules! history {
@@ -406,12 +449,14 @@ macro_rules! history {
         pub fn $name() {
             setup_world();
             let e = Env::default();
-            let (n0, n1) = mint_two(&e, $two);
+            let (n0, n1) = arb_batches($two);
             let g = Ghost {
                 n0,
                 n1,
                 ops: [arb_op($b0), if $k >= 2 { arb_op($b1) } else { NOOP }, if $k >= 3 { arb_op($b2) } else { NOOP }],
             };
+            let declared = declare_universe(&g, $k, 0);
+            mint_batches(&e, n0, n1);
             run_op(&e, &g, 0);
             if $k >= 2 {
                 run_op(&e, &g, 1);
@@ -421,10 +466,104 @@ macro_rules! history {
             }
             witness!(g.ops[0].id == 63 || g.ops[0].id == 64, "history.first_operation_at_a_bucket_edge");
             witness!(g.ops[0].id + 1 == n0, "history.first_operation_on_the_last_id_of_batch_one");
-            query_sound(&e, &g, $k);
-            end_overflow_only();
+            witness!($k < 2 || g.ops[1].id + 1 == g.ops[0].id, "history.second_operation_on_the_id_before_the_first");
+            witness!($k < 2 || g.ops[1].id == g.ops[0].id + 1, "history.second_operation_on_the_id_after_the_first");
+            witness!($k < 2 || $b0 || g.ops[1].id == g.ops[0].id, "history.same_id_twice");
+            witness!($k < 3 || (g.ops[0].id / IDS != g.ops[1].id / IDS && g.ops[1].id / IDS != g.ops[2].id / IDS && g.ops[0].id / IDS != g.ops[2].id / IDS), "history.three_buckets_touched");
+            let has_burn = $b0 || ($k >= 2 && $b1) || ($k >= 3 && $b2);
+            let has_transfer = !$b0 || ($k >= 2 && !$b1) || ($k >= 3 && !$b2);
+            query(&e, &g, $k, has_burn, has_transfer);
+            end_checks(declared);
         }
     };
 }
-history!(h1_t, false, 1, [false, false, false]);
-history!(h1_b, false, 1, [true, false, false]);
+const T: bool = false;
+const B: bool = true;
+// one batch, one operation (smallest member of the family)
+history!(h1_one_batch_t, false, 1, [T, T, T]);
+history!(h1_one_batch_b, false, 1, [B, T, T]);
+// two batches
+history!(h1_t, true, 1, [T, T, T]);
+history!(h1_b, true, 1, [B, T, T]);
+history!(h2_tt, true, 2, [T, T, T]);
+history!(h2_tb, true, 2, [T, B, T]);
+history!(h2_bt, true, 2, [B, T, T]);
+history!(h2_bb, true, 2, [B, B, T]);
+history!(h3_ttt, true, 3, [T, T, T]);
+history!(h3_ttb, true, 3, [T, T, B]);
+history!(h3_tbt, true, 3, [T, B, T]);
+history!(h3_tbb, true, 3, [T, B, B]);
+history!(h3_btt, true, 3, [B, T, T]);
+history!(h3_btb, true, 3, [B, T, B]);
+history!(h3_bbt, true, 3, [B, B, T]);
+history!(h3_bbb, true, 3, [B, B, B]);
+macro_rules! probe_gets {
+    ($name:ident, $n:expr, $decl:expr) => {
+        #[kani::proof]
+        #[kani::unwind(25)]
+        pub fn $name() {
+            setup_world();
+            let e = Env::default();
+            let g = Ghost { n0: kani::any(), n1: kani::any(), ops: [arb_op(false), arb_op(false), arb_op(false)] };
+            if $decl {
+                let _ = declare_universe(&g, 3, 0);
+            }
+            let mut s = 0u32;
+            let mut k = 0;
+            while k < $n {
+                let i: u32 = kani::any();
+                if let Some(v) = e.storage().persistent().get::<_, bool>(&ConsKey::BurnedToken(i)) {
+                    s += v as u32;
+                }
+                k += 1;
+            }
+            prop!(s <= 12, "C10.consecutive.probe");
+        }
+    };
+}
+probe_gets!(p4_gets0, 0, true);
+probe_gets!(p4_gets6, 6, true);
+macro_rules! probe_dsets {
+    ($name:ident, $n:expr) => {
+        #[kani::proof]
+        #[kani::unwind(25)]
+        pub fn $name() {
+            setup_world();
+            let e = Env::default();
+            let g = Ghost { n0: 5, n1: 7, ops: [arb_op(false), arb_op(false), arb_op(false)] };
+            let _ = declare_universe(&g, 3, 0);
+            let mut k = 0;
+            while k < $n {
+                let i: u32 = kani::any();
+                e.storage().persistent().set(&ConsKey::Owner(i), &Address::from_id(1));
+                k += 1;
+            }
+            prop!(world().seq > 0, "C10.consecutive.probe");
+        }
+    };
+}
+probe_dsets!(p5_dsets0, 0);
+probe_dsets!(p5_dsets6, 6);
+#[kani::proof]
+#[kani::unwind(25)]
+#[kani::stub(stellar_tokens::non_fungible::consecutive::Consecutive::owner_of, crate::nft_consec::owner_of_stub)]
+pub fn p6_decl_mint() {
+    setup_world();
+    let e = Env::default();
+    let (n0, n1) = arb_batches(true);
+    let g = Ghost { n0, n1, ops: [arb_op(false), NOOP, NOOP] };
+    let _declared = declare_universe(&g, 1, 0);
+    mint_batches(&e, n0, n1);
+}
+#[kani::proof]
+#[kani::unwind(25)]
+#[kani::stub(stellar_tokens::non_fungible::consecutive::Consecutive::owner_of, crate::nft_consec::owner_of_stub)]
+pub fn p6_decl_mint_op() {
+    setup_world();
+    let e = Env::default();
+    let (n0, n1) = arb_batches(true);
+    let g = Ghost { n0, n1, ops: [arb_op(false), NOOP, NOOP] };
+    let _declared = declare_universe(&g, 1, 0);
+    mint_batches(&e, n0, n1);
+    run_op(&e, &g, 0);
+}
